@@ -184,17 +184,18 @@ impl InternModel {
     }
 }
 
-/// `out[i]` is true iff the pattern (length m >= 1) equals `text[i+1-m ..= i]`, i.e. a streaming
-/// matcher must answer `true` right after it was handed `text[i]`. Overlapping occurrences all
-/// count.
-pub fn window_matches<T: PartialEq>(pattern: &[T], text: &[T]) -> Vec<bool> {
+/// True iff the pattern (length m >= 1) equals `text[i+1-m ..= i]`, i.e. a streaming matcher must
+/// answer `true` right after it was handed `text[i]`.
+pub fn window_match_at<T: PartialEq>(pattern: &[T], text: &[T], i: usize) -> bool {
     let m = pattern.len();
-    let mut out = Vec::with_capacity(text.len());
-    for i in 0..text.len() {
-        let hit = m >= 1 && i + 1 >= m && text[i + 1 - m..=i] == *pattern;
-        out.push(hit);
-    }
-    out
+    m >= 1 && i < text.len() && i + 1 >= m && text[i + 1 - m..=i] == *pattern
+}
+
+/// `out[i] = window_match_at(pattern, text, i)`. Overlapping occurrences all count.
+pub fn window_matches<T: PartialEq>(pattern: &[T], text: &[T]) -> Vec<bool> {
+    (0..text.len())
+        .map(|i| window_match_at(pattern, text, i))
+        .collect()
 }
 
 #[cfg(test)]
